@@ -50,7 +50,7 @@ class C20(Prop):
             "keys: every name of length<=3 (quick) / <=4 (thorough) over the alphabet 'IVXaS_-.0129' "
             "(exhaustive), in batches of 60, plus random longer names with I-runs, leading zeros and unloc "
             "suffixes; sort: random multisets of 2-14 (rank,name) items sorted by smart_sort_scaffolds and "
-            "scaffolds_sorted_by_name from two different initial orders. non-trivial = distinct batch / multiset"
+            "scaffolds_sorted_by_name from two different initial orders, and scaffold objects that were sorted under other names, renamed in place and sorted again. non-trivial = distinct batch / multiset"
         )
 
     def generate(self, rng, tier):
@@ -65,6 +65,13 @@ class C20(Prop):
             yield {"gen": "keys/random", "kind": "keys", "names": batch}
         for _ in range(150 if tier == "quick" else 2500):
             yield self.gen_sort(rng)
+        for _ in range(60 if tier == "quick" else 800):
+            # the same scaffold objects are sorted, renamed in place (as the chromosome namer does), sorted again
+            c = self.gen_sort(rng)
+            c2 = self.gen_sort(rng)
+            n = min(len(c["items"]), len(c2["items"]))
+            yield {"gen": "resort", "kind": "sort", "items": c2["items"][:n], "perm": list(range(n))[::-1],
+                   "first_names": [it[1] for it in c["items"][:n]]}
 
     def gen_sort(self, rng):
         style = rng.choice(["super", "roman", "mixed", "small"])
@@ -93,13 +100,22 @@ class C20(Prop):
         rng.shuffle(perm)
         return {"gen": f"sort/{style}", "kind": "sort", "items": items, "perm": perm}
 
-    def sort_impl(self, items):
+    def sort_impl(self, items, first_names=None):
         res = {}
         scs = []
         for i, (rank, nm) in enumerate(items):
-            sc = Scaffold(nm, rank=rank)
+            sc = Scaffold(first_names[i] if first_names else nm, rank=rank)
             sc._idx = i
             scs.append(sc)
+        if first_names:
+            pre = Assembly("pre", scaffolds=list(scs))
+            try:
+                pre.smart_sort_scaffolds()
+                pre.scaffolds_sorted_by_name()
+            except Exception:
+                pass
+            for sc, (rank, nm) in zip(scs, items):
+                sc.name = nm
         a = Assembly("a", scaffolds=list(scs))
         try:
             a.smart_sort_scaffolds()
@@ -119,7 +135,7 @@ class C20(Prop):
         if case["kind"] == "keys":
             return [impl_key(n) for n in case["names"]]
         items = case["items"]
-        r1 = self.sort_impl(items)
+        r1 = self.sort_impl(items, case.get("first_names"))
         shuffled = [items[p] for p in case["perm"]]
         r2 = self.sort_impl(shuffled)
         return {"orig": r1, "shuffled": r2}
@@ -175,7 +191,7 @@ class C20(Prop):
         return None
 
     def key(self, case, obs):
-        return super().key({k: v for k, v in case.items() if k != "perm"}, obs)
+        return super().key({k: v for k, v in case.items() if k not in ("perm",)}, obs)
 
     def shrink_candidates(self, case):
         if case["kind"] == "keys":
